@@ -372,8 +372,8 @@ def _count_rewrites(ctx, ids, pos, history) -> None:
             steps.add("shorten")
         elif after == before.partition(".")[0] and before[-2:-1] == ".":
             steps.add("version-drop")
-        elif after.startswith(before + "_") and ids.count(given) > 1 and before == given:
-            steps.add("dedupe")
+        elif before == given and re.fullmatch(re.escape(before) + r"_\d+", after):
+            steps.add("dedupe")  # the first pass: an exact duplicate, or equal to an id generated for an earlier one
         elif re.fullmatch(re.escape(before[:12]) + r"_\d+", after):
             steps.add("fallback-unique")
         else:
@@ -569,7 +569,7 @@ def _rand_base(rng) -> str:
         return ("seq" + "a" * 20)[:rng.choice([15, 16, 17])]
     if kind == "long":
         return rng.choice(PREFIX_POOL) + "".join(rng.choice(SAFE) for _ in range(rng.randrange(1, 8)))
-    number = rng.choice([1, 2, 7, 7, 42, 99999, 100000, 123456])
+    number = rng.choice([1, 2, 7, 7, 42, 99999, 100000, 123456, 12345678901234])
     if kind == "contig":
         return rng.choice(["", "xxxx", "NODE_"]) + rng.choice(["contig", "contg", "cont"]) + str(number) \
             + rng.choice([".", "|", "-", " "]) + rng.choice(["length_4000", "len=12 cov=3", "yyyyyyyyyyyy"])
